@@ -543,6 +543,38 @@ def rule234(ctx, rep, M):
             if sets and fn.name != 'transitioning':
                 r3.instance()
                 r3.ok(f'{q}:transitioning-writes', f'{len(sets)} write(s) interpreted in the composed machine', where(fn))
+        # the transitioning marker is set before the step is handed to the thread pool: the worker may finish (and, for the
+        # archive, run _archive_done in its own thread) before the launching method executes its next statement (added after
+        # seeded change C10-7: `transitioning = entering` moved behind deferToThread in FSM.archive)
+        for q in sorted(prog.funcs):
+            fn = prog.funcs[q]
+            if not (fn.cls is not None and fn.cls.qname == FSM and fn.parent is None):
+                continue
+            g = prog.nfunc(q)
+            if not any(isinstance(c.func, ast.Attribute) and c.func.attr == 'deferToThread' for c in g.calls()):
+                continue
+            late = []
+
+            class Ord(Flow):
+                def on_call(s, call, st):
+                    if isinstance(call.func, ast.Attribute) and call.func.attr == 'deferToThread':
+                        return ('handed',)
+                    return (st,)
+
+                def on_stmt(s, node, st):
+                    if st == 'handed' and isinstance(node, ast.Assign) and any(isinstance(t, ast.Attribute) and t.attr == 'transitioning' for t in node.targets):
+                        late.append(node)
+                    return (st,)
+
+            Ord().run(g.node, 'pre')
+            r3.instance()
+            r3.check(
+                not late,
+                f'{q}:marker-before-handover',
+                where(g, late[0] if late else None),
+                'transitioning is written only before deferToThread',
+                f'{q} writes transitioning ({norm(late[0]) if late else ""}) after the step was handed to the thread pool: if the worker finishes first the marker is set after the chain already returned to rest and is never cleared',
+            )
         # deferring callbacks never belong to an edge into a rest state
         for e in M.edges:
             cb = e.get('after')
@@ -764,6 +796,7 @@ def check(ctx):
 
 
 VARIANTS = [
+    V('archive marks entering after the hand-over', 'B', 'pl/state.py', 'FSM.archive', "d.addErrback(\n                dawgie.pl.LogFailure(\n                    'while archiving the pipeline', __name__\n                ).log\n            )", "d.addErrback(\n                dawgie.pl.LogFailure(\n                    'while archiving the pipeline', __name__\n                ).log\n            )\n            self.transitioning = Status.entering", 'R-C10-3'),
     V('reset no longer refuses while a reload is outstanding', 'B', 'pl/state.py', 'FSM.reset', 'self.transitioning = Status.exiting\n        self.wait_on_crew.set()\n        self.wait_on_doing.set()\n        self.wait_on_todo.set()\n        self.priority = None\n        self.transitioning = Status.active', 'self.wait_on_crew.set()\n        self.wait_on_doing.set()\n        self.wait_on_todo.set()\n        self.priority = None', 'R-C10-7'),
     V('guard dropped from the introspect edge', 'B', 'pl/state.dot', None, 'before=step_is_done,\n                                 after=navel_gaze', 'after=navel_gaze', 'R-C10-7'),
     V('save_prior_state records before it refuses', 'B', 'pl/state.py', 'FSM.save_prior_state', 'self.transitioning = Status.exiting\n        self.__prior = self.state', 'self.__prior = self.state\n        self.transitioning = Status.exiting', 'R-C10-7'),
